@@ -3,8 +3,13 @@ EXTENDS Quadrature, TLC, Json, IOUtils
 VARIABLE l
 Lines == TLCGet(7)
 Init == TLCSet(7, ndJsonDeserialize(IOEnv.TRACE_FILE)) /\ l = 1
+\* the rules on offer (as built): 1-D orders 0..4, 2-D orders 0..3, 3-D orders 0..2, and "max" = the highest of them.
+\* A request inside this range has to be served; outside it the library may decline (NotImplementedError).
+MaxOrder(dim) == CASE dim = 1 -> 4 [] dim = 2 -> 3 [] dim = 3 -> 2 [] OTHER -> -1
+Offered(dim, order) == order = "max" \/ \E k \in 0..MaxOrder(dim) : order = ToString(k)
 Judge(e) ==
-  IF e.op = "rejected" THEN TRUE      \* NotImplementedError outside the offered range
+  IF e.op = "rejected" THEN (IF Offered(e.dim, e.order) THEN PrintT(<<"BAD", e.tid, l, "OfferedRuleAvailable">>) ELSE TRUE)
+  ELSE IF e.op = "rule" /\ e.order = "max" /\ e.n # MaxOrder(e.dim) + 1 THEN PrintT(<<"BAD", e.tid, l, "MaxIsHighestOfferedOrder">>)
   ELSE LET f == IF e.op = "corners" THEN AllFailing(CornerClauses(e)) ELSE AllFailing(RuleClauses(e))
        IN IF f # {} THEN PrintT(<<"BAD", e.tid, l, f>>)
           ELSE IF e.op = "rule" /\ ~SameAsReference(e) THEN PrintT(<<"DRIFT", e.tid, l, "not the reference tensor rule">>)
